@@ -1,7 +1,7 @@
 (* Corr/Wire.v — reading and printing records and messages in the textual form of
    harness/common/rrconv.go, and the case functions shared by the wire
    properties (C01, C02, C04, C08, C09, C16, C20). *)
-From Dns Require Import Model.Msg Model.Truncate Gen.Structs.
+From Dns Require Import Model.Msg Model.Truncate Model.Heap Gen.Structs.
 Open Scope N_scope.
 
 Fixpoint split_go (c : ascii) (s : string) (cur : string) : list string :=
@@ -188,6 +188,20 @@ Definition c_pack_names (pad cap items : string) : string :=
   show_r (fun st => hex (dropN p (pn_out st)) +++ "#" +++ show_cmap (pn_cm st))%string
          (pack_name_seq (split_list "," items) (undec cap) st0).
 
+(* which fields of kind k does copy() leave sharing memory with the original,
+   according to the translated copy body and struct definition? *)
+Definition c_copy_shared (k : string) : string :=
+  match procs_of table_fuel k with
+  | None => "untranslated"%string
+  | Some ps =>
+    let fields := match find_fields structs k with Some fs => map (fun x => fst (fst x)) fs | None => [] end in
+    let ss := shape_of_fields table_fuel k in
+    join ","%string
+         (map (fun x : string * (cproc * mshape) => fst x)
+              (filter (fun x : string * (cproc * mshape) => negb (deep (fst (snd x)) (snd (snd x))))
+                      (combine fields (combine ps ss))))
+  end.
+
 Definition run_wire (fn : string) (args : list string) : option string :=
   if String.eqb fn "pack_rr" then Some (c_pack_rr (arg args 0) (arg args 1))
   else if String.eqb fn "unpack_rr" then Some (c_unpack_rr (arg args 0) (arg args 1))
@@ -196,6 +210,7 @@ Definition run_wire (fn : string) (args : list string) : option string :=
   else if String.eqb fn "len_msg" then Some (c_len_msg (arg args 0))
   else if String.eqb fn "len_rr" then Some (c_len_rr (arg args 0))
   else if String.eqb fn "pack_names" then Some (c_pack_names (arg args 0) (arg args 1) (arg args 2))
+  else if String.eqb fn "copy_shared" then Some (c_copy_shared (arg args 0))
   else if String.eqb fn "truncate" then Some (c_truncate (arg args 0) (arg args 1))
   else if String.eqb fn "pack_buf" then Some (c_pack_buf (arg args 0) (arg args 1))
   else None.
